@@ -321,3 +321,188 @@ def correspond(ctx, cases, tag="decomp", flavor="san"):
         p = l.split(" | ")
         mobs.append(p[0]); mextra.append(p[1] if len(p) > 1 else "")
     return obs, extra, logs, mobs, mextra, bad
+
+
+# ---------------------------------------------------------------- property oracles on the LIBRARY's output
+
+def proved_bound(cfg, sml, maxchunk):
+    """Theorem C07_bomb_bound (every oracle, clock and hook): delivered <= max(bomb, 2048*message_len) + max(8192, largest body
+    call) + 8192 + max(0, bomb) div (ratio - 1). maxchunk (largest network chunk) bounds the largest body call from above."""
+    bomb = cfg.get("bomb", DEFAULT_BOMB)
+    return max(bomb, RATIO * sml) + max(BUF, maxchunk) + BUF + max(0, bomb) // (RATIO - 1)
+
+
+def tight_bound(cfg, sml, maxchunk):
+    """The property text's bound ("by more than one output buffer", a passthrough block counting as one block)."""
+    bomb = cfg.get("bomb", DEFAULT_BOMB)
+    return max(bomb, RATIO * sml) + max(BUF, maxchunk)
+
+
+def unwrap(meta, layers):
+    """What `layers` unwrappings of the wire body give (reference decoders), or None when that is not defined."""
+    data = meta.wirebody
+    try:
+        for k in meta.actual[:layers]:
+            data = dec(k, data)
+    except Exception:
+        return None
+    return data
+
+
+DECODABLE = {("deflate", "zlib"), ("gzip", "raw"), ("gzip", "zlib"), ("deflate", "gzip"), ("deflate", "gzipname"), ("x-deflate", "zlib")}
+
+
+def oracle(meta, ob, ex, mex):
+    """Returns (verdict, detail): verdict in ok / skip / F12 / FAIL-*"""
+    d = fields(ob)
+    m = fields(mex)
+    tot, sml, layers = int(d["tot"]), int(d["sml"]), int(d["layers"])
+    cfg = meta.cfg
+    if tot > proved_bound(cfg, sml, meta.maxchunk):
+        return "FAIL-bound", "delivered %d > proved bound %d" % (tot, proved_bound(cfg, sml, meta.maxchunk))
+    lim = cfg.get("layers", 2)
+    if lim > 0 and layers > lim:
+        return "FAIL-layers", "%d layers > limit %d" % (layers, lim)
+    quiet = cfg.get("tstep", 0) == 0 and cfg.get("hookfail", 0) == 0 and cfg.get("decomp", 1) == 1
+    if meta.payload is None or not quiet or not meta.complete:
+        return "ok", ""
+    bomb = cfg.get("bomb", DEFAULT_BOMB)
+    crc = int(d["crc"], 16)
+    if meta.native:
+        # valid stream for the announced coding: exactly `layers` unwrappings, no restart, unless the bomb test can fire
+        exp = unwrap(meta, layers)
+        if exp is None:
+            return "skip", ""
+        inner = [len(exp)]
+        x = meta.wirebody
+        for k in meta.actual[:layers]:
+            x = dec(k, x)
+            inner.append(len(x))
+        if max(inner) > bomb:
+            return "ok", "bomb test may fire"
+        if "lzmabig" in meta.actual:
+            return "ok", ""
+        if d["restart"] != "0":
+            return "FAIL-restart-on-valid-stream", "trace point 3 fired on a stream valid for the announced coding"
+        if tot != len(exp) or crc != (zlib.crc32(exp) & 0xffffffff):
+            return "FAIL-faithful", "delivered %d bytes crc %08x, expected %d bytes crc %08x (%d layers)" % (
+                tot, crc, len(exp), zlib.crc32(exp) & 0xffffffff, layers)
+        return "ok", "faithful"
+    if meta.tokens is not None and len(meta.tokens) == 1 and (meta.tokens[0], meta.actual[0]) in DECODABLE and len(meta.payload) <= bomb:
+        # a deflate-/gzip-coded body in the other framing: recovered through the restart path, unless the restart came late (F12)
+        good = tot == len(meta.payload) and crc == (zlib.crc32(meta.payload) & 0xffffffff)
+        if m.get("late") == "1":
+            return ("F12" if not good else "ok"), "late restart"
+        if not good:
+            return "FAIL-faithful", "delivered %d bytes crc %08x, expected the payload (%d bytes) and no late restart happened" % (
+                tot, crc, len(meta.payload))
+        return "ok", "faithful-after-restart"
+    return "ok", ""
+
+
+def classify(meta, ob, mex):
+    d = fields(ob)
+    m = fields(mex)
+    szs = d.get("sizes", "-")
+    shape = "none" if szs == "-" else ("full" if szs.startswith("8192") else "part")
+    return (meta.name.split(":")[0], "/".join(meta.tokens or ["?"])[:20], "/".join(meta.actual or ["?"])[:20], meta.framing, d.get("layers"), d.get("cep"),
+            d.get("restart"), m.get("late"), shape, meta.chunking.rstrip("0123456789"), cfg_str(meta.cfg))
+
+
+def check(ctx):
+    pr = vf.proof_step(ctx, "Properties_C07")
+    cases, metas = generate(ctx)
+    # regression witness of the fixed stale-buffer defect
+    wcase, wlen = fixed_witness_case()
+    cases.append(wcase)
+    metas.append(Meta(name="fixed-witness", payload=None, tokens=["gzip", "gzip"], actual=["gzip", "gzip"], native=False,
+                      cfg=dict(bomb=1048576), maxchunk=200, framing="cl", chunking="bytes", wirebody=b"", complete=True))
+    obs, extra, logs, mobs, mextra, crash = correspond(ctx, cases)
+    ctx.cov["evaluations"] += len(cases)
+    st = ctx.cov["suites"].setdefault("S-decomp", {"cases": 0, "mismatches": 0})
+    st["cases"] = len(cases)
+    if crash:
+        vf.report_crash(ctx, "S-decomp", cases, crash)
+    # (i) model (fed the recorded answers) vs library
+    mm = vf.first_mismatches(obs, mobs, limit=20) if not crash else []
+    st["mismatches"] = len(mm)
+    for i in mm[:3]:
+        vf.violation(ctx, "S-decomp-%d" % i, {
+            "kind": "implementation-differs-from-model", "suite": "S-decomp", "case": cases[i], "what": metas[i].name,
+            "implementation": obs[i], "model": mobs[i],
+            "theorem": "Properties_C07.v is stated about the model; the library no longer behaves like it on this input"})
+    # (ii) property oracles on the library's output
+    verdicts = {}
+    f12 = []
+    nfail = 0
+    for i, (mt, ob, ex, mex) in enumerate(zip(metas, obs, extra, mextra)):
+        if not ob.startswith("ev="):
+            continue
+        v, detail = oracle(mt, ob, ex, mex)
+        verdicts[v] = verdicts.get(v, 0) + 1
+        if v == "F12":
+            f12.append(i)
+        elif v.startswith("FAIL"):
+            nfail += 1
+            if nfail <= 3:
+                vf.violation(ctx, "oracle-%d" % i, {"kind": "property-oracle-failed", "oracle": v, "detail": detail, "suite": "S-decomp",
+                                                    "case": cases[i], "what": "%s tokens=%s actual=%s %s/%s" % (mt.name, mt.tokens, mt.actual, mt.framing, mt.chunking),
+                                                    "implementation": ob})
+    # the fixed witness: must now deliver at most bomb limit + one buffer
+    wd = fields(obs[-1])
+    if int(wd.get("tot", "0")) > FIXED_WITNESS_MAX:
+        vf.violation(ctx, "fixed-witness", {"kind": "regression-of-fixed-finding", "commit": "a3d1a80", "case": cases[-1], "implementation": obs[-1],
+                                            "detail": "delivered %s > %d: the refused output block is delivered again" % (wd.get("tot"), FIXED_WITNESS_MAX)})
+    ctx.notes.append("fixed witness (a3d1a80): %d wire bytes one per call -> delivered %s (limit %d)" % (wlen, wd.get("tot"), FIXED_WITNESS_MAX))
+    # (iii) F12: the witness replayed; listed while still exhibited
+    known = vf.known_for("C07")
+    f12case, f12payload = f12_witness_case()
+    o2, e2, l2, m2, me2, cr2 = correspond(ctx, [f12case], tag="f12")
+    d2 = fields(o2[0]) if o2 else {}
+    exhibited = bool(o2) and d2.get("restart") == "1" and fields(me2[0]).get("late") == "1" and \
+        (int(d2.get("tot", "0")) != len(f12payload) or int(d2.get("crc", "0"), 16) != (zlib.crc32(f12payload) & 0xffffffff))
+    if o2 and o2[0] != m2[0]:
+        vf.violation(ctx, "f12-witness", {"kind": "implementation-differs-from-model", "case": f12case, "implementation": o2[0], "model": m2[0]})
+    listed = [k for k in known if k["id"] == "F12"]
+    if exhibited or f12:
+        if listed:
+            ctx.known.append("id=F12 failure=%s hook=3 witness_delivered=%s expected=%d also_exhibited_by=%d generated cases" % (
+                F12_FAILURE, d2.get("tot"), len(f12payload), len(f12)))
+        else:
+            vf.violation(ctx, "F12", {"kind": "property-oracle-failed", "oracle": "faithful", "case": f12case, "implementation": o2[0] if o2 else None,
+                                      "detail": "restart after earlier chunks were consumed loses output; not listed as a known finding"})
+    ctx.cov["oracle_verdicts"] = verdicts
+    vf.note_distinct(ctx, set(classify(mt, ob, mex) for mt, ob, mex in zip(metas, obs, mextra) if ob.startswith("ev=")))
+    for i in (0, len(cases) // 3, 2 * len(cases) // 3):
+        vf.sample(ctx, {"suite": "S-decomp", "what": metas[i].name, "case": cases[i][:300], "result": obs[i][:300]})
+    ctx.cov["exhaustive"] = False
+    rule = ("payloads {empty, 1 byte, short, text, random 1k/20k, 100k zeros, pattern (+300k zeros, random 200k, mixed in thorough)} x announced codings "
+            "{gzip, x-gzip, deflate, x-deflate, lzma, gzip with FNAME; lists gzip/gzip, deflate/gzip, gzip/deflate, gzip/lzma, lzma/gzip, 3 x gzip, lzma/lzma; "
+            "43 token spellings incl. unknown/identity/none/inflate/separators} x framings {Content-Length, chunked, close} x network chunkings {whole, head|body, "
+            "every single cut of short streams, cuts around offsets 1-19 and the tail, one byte per call, random multi-cuts} x limits {bomb 0,1,8191,8192,8193,1e5,default; "
+            "layer limit 0/1/2/3; lzma layers 0/1/2/3}; announced != actual coding (14 pairs) for the restart paths; corrupted/truncated streams; bombs (1-4 MiB zeros, "
+            "nested); deterministic clock steps for the time heuristic; hook returning an error. distinct_nontrivial = distinct (class, tokens, formats, framing, layers, "
+            "processing, restart, late-restart, output shape, chunking kind, limits).")
+    return vf.standard_epilogue(ctx, pr, "make Props/Properties_C07.vo (coqc 8.16.1) + ./check C07", rule,
+                                ["zlib inflate / LZMA SDK decoder / gettimeofday / the user's hook are an oracle (recorded answers in correspondence, universally quantified in C07_bomb_bound and C07_layers_bounded, contract hypothesis in C07_wrapper_faithful_partial)",
+                                 "buffer contract of the external decoders (consumed <= avail_in, produced <= avail_out) is built into the model by clamping",
+                                 "time_spent (int32_t in C) is not reduced modulo 2^32 in the model",
+                                 "response side only; request-side decompression is driven by the harness (dir=1) but not modelled",
+                                 "allocation failure in htp_gzip_decompressor_create belongs to C18"])
+
+
+def replay(ctx, path):
+    obj = json.load(open(path))
+    c = obj.get("case")
+    if not c:
+        print("replay file names no input:", obj.get("kind"), obj.get("theorem_file"))
+        return 1
+    obs, extra, logs, mobs, mextra, crash = correspond(ctx, [c], tag="replay")
+    f = c.split("\t")
+    print("case: cfg=%s, %d chunks, %d bytes" % (f[1], len(f) - 2, sum(len(x) // 2 for x in f[2:] if x != "-")))
+    print("implementation:", obs[0] if obs else crash)
+    print("impl-only:", extra[0] if extra else None)
+    print("model:", mobs[0] if mobs else None, "|", mextra[0] if mextra else None)
+    if obj.get("detail"):
+        print("oracle:", obj.get("oracle"), obj["detail"])
+    return 0 if (not crash and obs == mobs and not obj.get("oracle")) else 1
